@@ -12,7 +12,9 @@ ASSUMPTIONS = [
 RULE = ('malformed suite: for every family of client calls ~N well-formed replies (as C02), each cut at random prefixes, mutated bytewise over the boundary alphabet '
         '{00..08,10,40,7F,80,F0,FF}, extended with junk and with zeros; plus every 1..3-byte reply over the alphabet after the response id for each call kind. The real client must end in a '
         'documented outcome within a step budget (5 s alarm per call), with the three exception_on_* switches on and off; the Lean model must give the same outcome and dump. '
-        'distinct = distinct (call line, reply); non-trivial = the reply differs from the well-formed one')
+        'distinct = distinct (call line, reply); non-trivial = the reply differs from the well-formed one. frames suite: every client entry point x whole frames as the connection delivers them '
+        '(empty, 7F alone, 7F + id, truncated / over-long negative responses, foreign and impossible ids, junk, short positive replies; short frames also after a response-pending reply) x the three switches: '
+        'documented outcome on the real client, and the same log / verdict as the model for everything send_request decides')
 
 DOCUMENTED = ('ok', 'none', 'negative', 'invalid', 'unexpected', 'timeout', 'config', 'notimpl')
 
@@ -109,4 +111,82 @@ def suite_codec_raises(ctx):
     return s
 
 
-SUITES = [suite_malformed, suite_codec_raises]
+def suite_frames(ctx):
+    """whole frames as the connection delivers them (empty, truncated negative responses, foreign ids, junk), through every client entry point"""
+    from .. import clientlib as cl, entries
+    from ..core import b01, onat, ohx
+    s = Suite('frames')
+    rng = ctx.rng
+    svcs = cl.services_by_name()
+    by_sid = {c._sid: c for c in svcs.values()}
+    calls = entries.default_calls()
+    if not ctx.thorough:
+        seen, sel = set(), []
+        for c in calls:
+            if c.name not in seen:
+                seen.add(c.name)
+                sel.append(c)
+        calls = sel
+    signal.signal(signal.SIGALRM, _alarm)
+    lines, impl = [], []
+    for c in calls:
+        # learn the request id from a dry run
+        client, conn = cl.make_client(cl.Cfg(rt=50000, p2=1000, p2s=5000), extra=c.config())
+        first = {}
+        conn.responder = lambda p, first=first: first.setdefault('p', p) and []
+        cl.observe_outer(conn, lambda: c.invoke(client))
+        if 'p' not in first:
+            continue
+        sid = first['p'][0]
+        other = 0x10 if sid != 0x10 else 0x11
+        frames = [b'', b'\x7f', bytes([0x7F, sid]), bytes([0x7F, sid, 0x31]), bytes([0x7F, sid, 0x00]), bytes([0x7F, sid, 0xFF, 0x01, 0x02]), bytes([0x7F, other]),
+                  bytes([0x7F, other, 0x31]), bytes([0x7F, 0x00]), bytes([0x7F, 0xFF]), bytes([0x7F, 0xFF, 0x31]), bytes([0x7F, 0x7F]), bytes([0x7F, sid + 0x40]), bytes([0x7F, sid + 0x40, 0x31]),
+                  bytes([sid + 0x40]), bytes([sid]), bytes([other + 0x40]), bytes([other + 0x40, 1, 2, 3]), b'\x00', b'\xff', b'\x3f', b'\x40', bytes([sid + 0x41]), bytes([sid + 0x3F])]
+        frames += [bytes(rng.randrange(256) for _ in range(rng.randrange(1, 13))) for _ in range(ctx.n(6, 60))]
+        frames += [bytes([sid + 0x40]) + bytes(rng.choice([0, 1, 0x7F, 0x80, 0xFF, rng.randrange(256)]) for _ in range(rng.randrange(0, 9))) for _ in range(ctx.n(4, 40))]
+        for f in frames:
+            for k in ((0, 1) if len(f) <= 3 else (0,)):          # short frames also after a response-pending reply
+                sw = rng.choice([(True, True, True), (False, False, False), tuple(rng.random() < 0.5 for _ in range(3))])
+                cfg = cl.Cfg(rt=50000, p2=1000, p2s=5000, cb=True, exc=sw)
+                client, conn = cl.make_client(cfg, extra=c.config())
+                state = {'first': None}
+
+                def responder(p, state=state, f=f, k=k):
+                    if state['first'] is None:
+                        state['first'] = p
+                        return [(10 * (i + 1), bytes([0x7F, p[0], 0x78])) for i in range(k)] + [(10 * (k + 1), f)]
+                    return []
+                conn.responder = responder
+                signal.alarm(5)
+                try:
+                    how, verdict, flags, payload, exc, r = cl.observe_outer(conn, lambda: c.invoke(client))
+                except Hang:
+                    how, verdict, flags = 'exc', 'other:HANG', '-'
+                finally:
+                    signal.alarm(0)
+                frame = state['first']
+                if frame is None:
+                    continue
+                log = list(conn.log)
+                name, sf, data = cl.frame_to_req(frame, by_sid)
+                arr = [(10 * (i + 1), bytes([0x7F, frame[0], 0x78])) for i in range(k)] + [(10 * (k + 1), f)]
+                line = 'sendd sw=%s%s%s %s svc=%s sf=%s rspr=0 data=%s timeout=- arr=%s' % (b01(sw[0]), b01(sw[1]), b01(sw[2]), cfg.line(), name, onat(sf), ohx(data), cl.arrivals_str(arr))
+                s.evaluations += 1
+                s.distinct.add('%s %s %d' % (c.name, f.hex(), k))
+                tag = verdict.split(':')[1] if verdict.startswith('other:') else verdict.split(':')[0]
+                s.count('%s' % tag)
+                if tag not in DOCUMENTED:
+                    s.fail({'site': c.name, 'call': c.desc(), 'input': line, 'frame': f.hex(), 'pending_replies_before': k, 'switches': sw, 'observed': verdict,
+                            'required': 'a result or a documented exception'})
+                # the model decides everything send_request decides: frames that are not a positive reply of this service
+                if not (len(f) >= 1 and f[0] == frame[0] + 0x40) and tag != 'HANG':
+                    lines.append(line)
+                    impl.append('log=%s how=%s verdict=%s flags=%s' % (cl.fmt_log(log), how, verdict, flags))
+    core.compare(s, lines, core.drv_batch(lines), impl)
+    if lines:
+        s.sample({'line': lines[0], 'impl': impl[0]})
+    s.notes.append('%d entry points' % len(calls))
+    return s
+
+
+SUITES = [suite_malformed, suite_codec_raises, suite_frames]
